@@ -313,6 +313,33 @@ pub fn generate(ctx: &mut Ctx) {
             ctx.case("pool", &inp);
         }
     }
+    // 1a. texts that a "natural" / numeric / case-folding order would treat specially: digit runs of every length
+    //     (beyond u64 and u128), leading zeros, mixed case, a common prefix - every ordered triple, per text kind
+    {
+        let texts = ["9", "10", "2", "007", "7", "18446744073709551615", "18446744073709551616", "100000000000000000000", "99999999999999999999999999999999999999999",
+                     "AHU-2", "AHU-10", "AHU-100000000000000000000", "ahu-2", "a", "B", "", "é"];
+        let mk: [fn(&str) -> Value; 4] = [
+            |t| Value::make_str(t),
+            |t| Value::make_uri(t),
+            |t| Value::make_symbol(t),
+            |t| Value::Ref(Ref { value: t.to_string(), dis: None }),
+        ];
+        let step = if ctx.quick() { 3 } else { 1 };
+        let mut c = 0usize;
+        for f in mk {
+            let vals: Vec<Value> = texts.iter().map(|t| f(t)).collect();
+            for a in 0..vals.len() {
+                for b in 0..vals.len() {
+                    for d in 0..vals.len() {
+                        c += 1;
+                        if a < b && b < d || c % step == 0 && a != b && b != d && a != d {
+                            ctx.case("texts3", &show3(&vals[a], &vals[b], &vals[d]));
+                        }
+                    }
+                }
+            }
+        }
+    }
     // 1b. numbers of different magnitude in convertible and unrelated units: every ordered triple (an order
     // that looks at quantities for some pairs and at raw magnitudes for others is not transitive)
     {
